@@ -318,7 +318,7 @@ def run_replay(binary, path, race=False, verbose=False, timeout=900):
     return r.returncode, r.stdout
 
 
-GMPS = [16, 1, 2, 4, 8, 16, 3, 40, 6, 16, 12, 64, 5, 16, 33, 16]  # GOMAXPROCS per process (values above the core count are legal)
+GMPS = [16, 1, 2, 4, 8, 16, 3, 40, 6, 16, 12, 64, 5, 16, 33, 80]  # GOMAXPROCS per process (values above the core count are legal)
 
 
 def check(prop, tier, seed):
@@ -390,6 +390,8 @@ def _check(prop, tier, seed, tmp, t0):
             pop = "C05scale"  # a fault at the start of a collection of more than 2^16 elements
         if eng == "l2" and prop == "C19" and i == 5:
             pop = "C19scale"  # state reports while more than 2^16 jobs are outstanding
+        if eng == "l2" and prop in ("C09", "C06") and i == 5:
+            pop = prop + "scale"  # collections of thousands of elements whose context ends early
         report = None
         if eng == "l2" and prop in ("C08", "C04") and i == 5:
             pop, report = "C08scale", prop  # thousands of failures (errors and panics) in one ContinueOnError directive
